@@ -1,4 +1,18 @@
+pub mod alloc;
+pub mod ast;
+pub mod errcodes;
+pub mod gen;
 pub mod invoke;
 pub mod keys;
+pub mod mon;
+pub mod oracle;
 pub mod proj;
+pub mod report;
 pub mod rng;
+pub mod sentry;
+pub mod service;
+pub mod sim;
+
+#[cfg(not(vcheck_no_alloc_monitor))]
+#[global_allocator]
+static GLOBAL: alloc::Counting = alloc::Counting;
